@@ -141,6 +141,12 @@ func create(ps *ProgSpec, mode ir.BuilderMode) (*ir.Program, []*ir.Package, *che
 	prog := ir.NewProgram(c.fset, mode)
 	var pkgs []*ir.Package
 	for _, name := range c.order {
+		if name == "lib" && ps.LibFromTypes {
+			// like a dependency loaded from export data: no syntax, its
+			// methods are created "from type information (on demand)"
+			pkgs = append(pkgs, prog.CreatePackage(c.pkgs[name], nil, nil, true))
+			continue
+		}
 		pkgs = append(pkgs, prog.CreatePackage(c.pkgs[name], c.files[name], c.infos[name], true))
 	}
 	return prog, pkgs, c, nil
@@ -258,13 +264,21 @@ func execute(c Case, tapes *[][]uint32) batch.Result {
 	if err != nil {
 		return batch.Result{Infra: "generated program does not type-check: " + err.Error()}
 	}
-	var refPanic any
-	func() {
-		defer func() { refPanic = recover() }()
+	// The serial reference build runs inside the simulator as well (FIFO), so
+	// that a build that never finishes is a modelled deadlock, not a hang.
+	rvr := verifsim.Run(verifsim.Config{Strategy: verifsim.StratFIFO, StepBound: 2_000_000}, func() {
 		rprog.Build()
-	}()
-	if refPanic != nil {
-		return batch.Result{Violation: &batch.Violation{Class: "panic", Detail: fmt.Sprintf("serial reference build panicked: %v", refPanic)}}
+		verifsim.Quiesce()
+	})
+	ir.VerifResetCPULimit()
+	if len(rvr.Panics) > 0 {
+		return batch.Result{Violation: &batch.Violation{Class: "panic", Detail: fmt.Sprintf("serial reference build panicked: %s\n%s", rvr.Panics[0].Value, firstLines(rvr.Panics[0].Stack, 30))}}
+	}
+	if rvr.Deadlock != "" {
+		return batch.Result{Violation: &batch.Violation{Class: "deadlock", Detail: "serial reference build: " + rvr.Deadlock}}
+	}
+	if rvr.StepBound {
+		return batch.Result{Violation: &batch.Violation{Class: "step-bound", Detail: "serial reference build did not finish"}}
 	}
 	ref := dumpAll(rprog)
 	nfn := 0
@@ -342,7 +356,8 @@ func execute(c Case, tapes *[][]uint32) batch.Result {
 						if obj == nil {
 							continue
 						}
-						for _, T := range []types.Type{obj.Type(), types.NewPointer(obj.Type())} {
+						// every selection is requested by two concurrent callers
+						for _, T := range []types.Type{obj.Type(), types.NewPointer(obj.Type()), obj.Type(), types.NewPointer(obj.Type())} {
 							T := T
 							verifsim.WGAdd(&wg, 1)
 							verifsim.Go(func() {
